@@ -566,12 +566,21 @@ def correspondence(ctx, cases, batch=400):
             if faults and not getattr(prop, "fault_is_output", False):
                 fails.append(Failure("fault", "implementation died: " + faults[0], case=c, detail={"impl": io[-5:]},
                                      key=prop.fault_key(c, faults[0])))
-            mf = prop.monitor(ctx, c, io)
+            # a monitor / comparison that cannot digest the implementation's answer (exception inside the plug-in) is a
+            # finding about THIS case, not a crash of the check: the answer is outside what the protocol and the model allow
+            try:
+                mf = prop.monitor(ctx, c, io)
+            except Exception as e:
+                mf = Failure("monitor", "the monitor could not interpret the implementation's answer (%s: %s)"
+                             % (type(e).__name__, str(e)[:160]), detail={"impl": io[-6:]})
             if mf is not None:
                 mf.case = c
                 fails.append(mf)
             if mo is not None:
-                d = prop.compare(ctx, c, io, mo)
+                try:
+                    d = prop.compare(ctx, c, io, mo)
+                except Exception as e:
+                    d = (0, "compare raised %s: %s" % (type(e).__name__, str(e)[:160]), "")
                 if d is not None:
                     fails.append(Failure("diverge", "model and implementation differ at op %d" % d[0], case=c,
                                          detail={"op_index": d[0], "impl": d[1], "model": d[2]}))
